@@ -24,14 +24,23 @@ def _run_one(args):
     cwd = os.getcwd()
     try:
         try:
-            task = C03.make_task(graph)
+            if "named" in graph:
+                from props import _c17wfs as W
+
+                cls, outs = W.NAMED[graph["named"]]
+                task = cls(**graph["inputs"])
+            else:
+                task = C03.make_task(graph)
             kw = {"worker": cfg["worker"]}
             if cfg["worker"] == "cf":
                 kw["n_procs"] = cfg["n_procs"]
             if cfg.get("max_concurrent"):
                 kw["max_concurrent"] = cfg["max_concurrent"]
             out = task(cache_root=tmp, **kw)
-            res = {"ok": {nd["name"]: C03._jsonable(getattr(out, f"o{i}")) for i, nd in enumerate(graph["nodes"])}}
+            if "named" in graph:
+                res = {"ok": {n: C03._jsonable(getattr(out, n)) for n in outs}}
+            else:
+                res = {"ok": {nd["name"]: C03._jsonable(getattr(out, f"o{i}")) for i, nd in enumerate(graph["nodes"])}}
         except Exception as e:  # noqa
             res = {"error": type(e).__name__}
         return res
@@ -59,6 +68,18 @@ def configs(thorough):
     return cfgs
 
 
+def _short(g):
+    from props import C03
+
+    return f"{g['named']}({g['inputs']})" if "named" in g else C03.short(g)
+
+
+def _key(g):
+    from props import C03
+
+    return ("named", g["named"], json.dumps(g["inputs"], sort_keys=True)) if "named" in g else C03.graph_key(g)
+
+
 def run(ctx):
     from props import C03
 
@@ -74,10 +95,33 @@ def run(ctx):
     graphs = sg + small
     rng.shuffle(graphs)
     graphs = graphs[: ctx.pick(20, 240)] + sampled[: ctx.pick(6, 120)]
+    # zero-job nodes: the same named shapes with EMPTY input lists (a split that selects nothing feeding further nodes);
+    # whether nothing else is in flight when such a node starts depends on pool size, limit and completion order
+    import copy as _copy
+
+    empties, seen = [], set()
+    for g in sg:
+        if not any(nd.get("split") for nd in g["nodes"]) or len(g["nodes"]) < 2:
+            continue
+        shape_key = json.dumps([{k: v for k, v in nd.items()} for nd in g["nodes"]], sort_keys=True)
+        if shape_key in seen:
+            continue
+        seen.add(shape_key)
+        names = sorted(g["inputs"])
+        for emptied in ([names[0]], names) if len(names) > 1 else ([names[0]],):
+            h = _copy.deepcopy(g)
+            for n in emptied:
+                h["inputs"][n] = []
+            empties.append(h)
+    graphs += empties[: ctx.pick(10, 60)]
+    from props import _c17wfs as W
+
+    named = W.cases()
+    graphs += named
     cfgs = configs(ctx.thorough)
     dom = ctx.domain(
         "workflows-x-execution-configurations",
-        bound=f"{len(graphs)} generated workflows (C03 grammar, seeded selection) x {len(cfgs)} configurations {cfgs}",
+        bound=f"{len(graphs)} generated workflows (C03 grammar, seeded selection; {min(len(empties), ctx.pick(10, 60))} of them named shapes with one / all input lists EMPTY, i.e. zero-job nodes with successors; {len(named)} hand-written filter -> map -> reduce workflows whose split values are produced at run time, some selecting nothing) x {len(cfgs)} configurations {cfgs}",
         rule="one case per workflow (all configurations); non-trivial = a split node feeds a downstream node and the workflow is accepted",
         exhaustive=False,
     )
@@ -88,16 +132,16 @@ def run(ctx):
     for g in graphs:
         rs = [next(it) for _ in cfgs]
         ref = rs[0]
-        case = {"graph_json": json.dumps(g, sort_keys=True), "short": C03.short(g), "results": {json.dumps(c, sort_keys=True): ("ok" if "ok" in r else r["error"]) for c, r in zip(cfgs, rs)}}
-        dom.case(C03.graph_key(g), nontrivial=("ok" in ref and C03.useful(g)), sample={"workflow": C03.short(g), "configs": len(cfgs), "outcome": "ok" if "ok" in ref else ref["error"]})
+        case = {"graph_json": json.dumps(g, sort_keys=True), "short": _short(g), "results": {json.dumps(c, sort_keys=True): ("ok" if "ok" in r else r["error"]) for c, r in zip(cfgs, rs)}}
+        dom.case(_key(g), nontrivial=("ok" in ref and ("named" in g or C03.useful(g))), sample={"workflow": _short(g), "configs": len(cfgs), "outcome": "ok" if "ok" in ref else ref["error"]})
         for c, r in zip(cfgs[1:], rs[1:]):
             if ("ok" in r) != ("ok" in ref):
-                ctx.fail(None, f"workflow {C03.short(g)}: debug worker gives {'outputs' if 'ok' in ref else ref['error']}, configuration {c} gives {'outputs' if 'ok' in r else r['error']}", case, domain=dom)
+                ctx.fail(None, f"workflow {_short(g)}: debug worker gives {'outputs' if 'ok' in ref else ref['error']}, configuration {c} gives {'outputs' if 'ok' in r else r['error']}", case, domain=dom)
                 break
             if "ok" in r and r["ok"] != ref["ok"]:
                 bad = [n for n in ref["ok"] if r["ok"].get(n) != ref["ok"][n]]
                 case["differs_at"] = bad
-                ctx.fail(None, f"workflow {C03.short(g)}: outputs of nodes {bad} differ between the debug worker and {c}", case, domain=dom)
+                ctx.fail(None, f"workflow {_short(g)}: outputs of nodes {bad} differ between the debug worker and {c}", case, domain=dom)
                 break
 
 
